@@ -567,6 +567,8 @@ func FuzzC12(f *testing.F) {
 	// used to call it malformed)
 	f.Add([]byte("0;chunk-signature=00000000000000000000000000\r0000000000000000000000000000000000000\r\n\r\n"), 43, 0)
 	f.Add([]byte("3;chunk-signature=0000000000000000000000000000000\n00000000000000000000000000000000\r\nabc\r\n0;chunk-signature="+oracle.Sig+"\r\n\r\n"), 5, 3)
+	// ... nor does a CRLF pair among them: the signature is 64 octets by position
+	f.Add([]byte("4;chunk-signature="+oracle.Sig+"\r\n0000\r\n3;chunk-signature=00000000000000000000000000000000000000000\r\n000000000000000000000\r\n000\r\n0;chunk-signature="+oracle.Sig+"\r\n\r\n"), 3, 7)
 	f.Fuzz(func(t *testing.T, stream []byte, frag int, declared int) {
 		if len(stream) > 1<<16 || frag <= 0 || declared < -5 || declared > 1<<17 {
 			return
